@@ -41,7 +41,7 @@ CONSTANTS MaxObjs,   \* bound on the store
           WfBits,    \* names of the well-formedness bits
           MaxCalls, MaxObs, MaxCopies,
           Arity,     \* calls take 1..Arity store objects
-          Fault      \* "none" | "mutate" | "idhash" | "novalidate" | "badcopy" | "eqstate"
+          Fault      \* "none" | "mutate" | "idhash" | "stalehash" | "novalidate" | "badcopy" | "eqstate"
 
 Vals == Contents \X Labels
 Cls(v) == v[1]
@@ -156,12 +156,16 @@ BadCopy == /\ Fault = "badcopy" /\ Len(snap) < MaxObjs
                 /\ snap' = Append(snap, v) /\ wf' = Append(wf, wf[o])
                 /\ copies' = copies \cup {<<o, Len(snap) + 1>>}
                 /\ UNCHANGED <<hfun, eqobs, hobs, calls>>
+\* a derived object keeps the cached hash of the object it was derived from (replace() copying _hash): it reports the
+\* hash of another content, while an equal object derived from a never-hashed original reports its own
+BadStaleHash == /\ Fault = "stalehash"
+                /\ \E a, b, c \in Objs : a # b /\ Equal(a, b) /\ ~Equal(a, c) /\ Observe(a, b, TRUE, H(c), H(b))
 \* == that depends on something else than the two values (e.g. raises / answers differently per direction)
 BadEq == /\ Fault = "eqstate"
          /\ \E a, b \in Objs, r \in BOOLEAN : Observe(a, b, r, H(a), H(b))
 
 Next == DoLoad \/ DoCallFresh \/ DoCallSame \/ DoCallValue \/ DoCallRaise \/ DoCopy \/ DoObserve
-NextBad == Next \/ BadMutate \/ BadIdHash \/ BadNoValidate \/ BadCopy \/ BadEq
+NextBad == Next \/ BadMutate \/ BadIdHash \/ BadStaleHash \/ BadNoValidate \/ BadCopy \/ BadEq
 Spec == Init /\ [][Next]_vars
 SpecBad == Init /\ [][NextBad]_vars
 
